@@ -619,3 +619,150 @@ func runR87(c *core.Ctx) {
 	}
 	c.Check(len(bad) == 0, "R8.7", "server.(*DefaultServer).Loop#error-attribution", c.P.Pos(loop.Pos()), "the failing request, its type and the orchestrator's error are passed on", strings.Join(uniq(bad), "; "))
 }
+
+// ---------------------------------------------------------------- R8.11
+
+type muteState struct{ m string }
+
+func (s *muteState) Key() string       { return s.m }
+func (s *muteState) Copy() ssax.PState { c := *s; return &c }
+
+// runR811: the flag that mutes the terminator belongs to one get. The muting responder lives as long as the connection,
+// so a wrapped Get/GetE that runs without the flag having been assigned in the same call sees whatever the previous
+// request left behind. Either every wrapped get is preceded, on every path, by an assignment of the flag, or every
+// exit of every method that assigns it leaves it clear. Otherwise an earlier multi-key get that ended early (error on
+// a key that was not the last) swallows the terminator of a later get: no END, no no-op reply.
+func runR811(c *core.Ctx) {
+	c.Rule("R8.11", "the terminator-muting flag is per get: every get handed to the wrapped orchestrator is preceded by an assignment of the flag in the same call, or no method of the wrapper can return with the flag still set", 2)
+	ri := c.P.Iface("protocol", "Responder")
+	if ri == nil {
+		c.Undecided("R8.11", "protocol.Responder", "-", "interface not found")
+		return
+	}
+	var mutedType *types.Named
+	field := ""
+	for _, impl := range c.P.Implementers(ri) {
+		fn := c.P.Method(impl, "GetEnd")
+		if fn == nil || len(fn.Blocks) == 0 {
+			continue
+		}
+		if cls := classifyGetEnd(fn); strings.HasPrefix(cls, "forwards-unless:") {
+			mutedType, field = impl.Named, strings.TrimPrefix(cls, "forwards-unless:")
+		}
+	}
+	if mutedType == nil {
+		c.Info("R8.11", "orcas#muting-responder", "-", "no responder forwards GetEnd under a flag: nothing to decide (see R8.2)")
+		// keep the rule non-vacuous only while the idiom exists
+		c.OK("R8.11", "orcas#no-muting-flag", "-", "no muting flag exists")
+		c.OK("R8.11", "orcas#no-muting-flag-2", "-", "no muting flag exists")
+		return
+	}
+	isMuteStore := func(ins ssa.Instruction) (*ssa.Store, bool) {
+		st, ok := ins.(*ssa.Store)
+		if !ok {
+			return nil, false
+		}
+		fa, ok := st.Addr.(*ssa.FieldAddr)
+		if !ok {
+			return nil, false
+		}
+		if n, _ := ssax.FieldName(fa); n != field {
+			return nil, false
+		}
+		if namedOf(fa.X.Type()) != mutedType {
+			return nil, false
+		}
+		return st, true
+	}
+	// exits that can leave the flag set, per function that assigns it
+	var leaves []string
+	type relying struct {
+		fn  *ssa.Function
+		ins ssa.Instruction
+		key string
+	}
+	var calls []relying
+	defined := map[ssa.Instruction]bool{}
+	for _, fn := range pkgFuncs(c, "orcas") {
+		if fn.Signature.Recv() == nil || fn.Parent() != nil {
+			continue
+		}
+		stores := false
+		ssax.Instrs(fn, func(ins ssa.Instruction) {
+			if _, ok := isMuteStore(ins); ok {
+				stores = true
+			}
+		})
+		if stores {
+			ex := &ssax.Explorer{Fn: fn}
+			ex.Instr = func(ins ssa.Instruction, ps ssax.PState) bool {
+				if st, ok := isMuteStore(ins); ok {
+					s := ps.(*muteState)
+					if k, isC := ssax.ConstInt(st.Val); isC {
+						if k != 0 {
+							s.m = "T"
+						} else {
+							s.m = "F"
+						}
+					} else {
+						s.m = "X"
+					}
+				}
+				return true
+			}
+			ex.Exit = func(ins ssa.Instruction, ps ssax.PState) {
+				if _, isRet := ins.(*ssa.Return); !isRet {
+					return
+				}
+				if m := ps.(*muteState).m; m == "T" || m == "X" {
+					leaves = append(leaves, core.FuncName(fn)+" can return at "+c.P.Pos(ins.Pos())+" with the flag set")
+				}
+			}
+			ex.Run(&muteState{m: "U"})
+		}
+		counts := map[string]int{}
+		ssax.Instrs(fn, func(ins ssa.Instruction) {
+			cc := ssax.CallOf(ins)
+			if cc == nil || !cc.IsInvoke() || types.TypeString(cc.Value.Type(), nil) != tOrca || (cc.Method.Name() != "Get" && cc.Method.Name() != "GetE") {
+				return
+			}
+			// only wrappers that hold the muting responder
+			holds := false
+			if n := namedOf(fn.Signature.Recv().Type()); n != nil {
+				if st, ok := n.Underlying().(*types.Struct); ok {
+					for i := 0; i < st.NumFields(); i++ {
+						if namedOf(st.Field(i).Type()) == mutedType {
+							holds = true
+						}
+					}
+				}
+			}
+			if !holds {
+				return
+			}
+			key := ordinalKey(counts, core.FuncName(fn)+"#wrapped-"+cc.Method.Name())
+			hit, _ := (ssax.Reach{
+				Target: func(i ssa.Instruction) bool { return i == ins },
+				Avoid:  func(i ssa.Instruction) bool { _, ok := isMuteStore(i); return ok },
+			}).FromBlock(fn.Blocks[0])
+			defined[ins] = hit == nil
+			calls = append(calls, relying{fn, ins, key})
+		})
+	}
+	leaves = uniq(leaves)
+	sort.Strings(leaves)
+	for _, r := range calls {
+		pos := c.P.Pos(r.ins.Pos())
+		switch {
+		case defined[r.ins]:
+			c.OK("R8.11", r.key, pos, "the flag is assigned on every path before this get is handed on")
+		case len(leaves) == 0:
+			c.OK("R8.11", r.key, pos, "runs with the flag as left by earlier requests; every return of every method that assigns the flag leaves it clear")
+		default:
+			c.Violate("R8.11", r.key, pos, "this get is handed to the wrapped orchestrator without the muting flag having been assigned in this call, and "+strings.Join(leaves, "; ")+": after a multi-key get that ended early, this get's terminator (END / the no-op reply) is swallowed")
+		}
+	}
+	if len(calls) == 0 {
+		c.Undecided("R8.11", "orcas#wrapped-gets", "-", "no get handed to a wrapped orchestrator by a wrapper holding the muting responder")
+	}
+}
